@@ -707,7 +707,11 @@ func (ck *Check) decoderAndKeys(rule string) {
 	}
 	sort.Strings(ts)
 	for _, t := range ts {
-		ck.cond(docKeys[t], rule, "tag:"+t, "", pkgController, "json tag "+t+" is a documented key", "", "an option exists that the documentation's example does not show")
+		// the statement asks that documented keys are honoured, not that every option is documented:
+		// an undocumented option is reported for information only
+		if !docKeys[t] {
+			ck.info("C16.R5: option with json tag %s is not shown in the documented example", t)
+		}
 	}
 	// yaml tags that disagree are inert with this decoder; report as info
 	st := a.TOptions.Underlying().(*types.Struct)
